@@ -52,9 +52,9 @@ m = {
  'version': 1,
  'setup_cmd': '/venv/bin/python /verif/run.py selftest setup',
  'hooks': {'guard': 'BYCYCLE_VERIF', 'enable': 'no hooks: all seams are module attributes patched by the harness at run time (bycycle.group.features.Pool / cpu_count, call seams)', 'baseline_off_cmd': 'cd /repo && /venv/bin/python -m pytest -ra -q -p no:cacheprovider --timeout=900 --continue-on-collection-errors', 'source_commits': [], 'add_only': True},
- 'engines': [{'name': 'simcheck', 'path': '/verif/simcheck', 'serves_properties': claimed, 'kind_free_text': 'deterministic simulator (seeded scheduler + fault injector) written for this repository: SimPool, call seams, baton-passing caller sessions, reference models, ddmin minimiser, replay files'}],
+ 'engines': [{'name': 'simcheck', 'path': '/verif/simcheck', 'serves_properties': claimed, 'kind_free_text': 'deterministic simulator (seeded scheduler + fault injector) written for this repository: SimPool (real stdlib Pool logic over simulated or forked-and-parked workers), SimExecutor (concurrent.futures), call seams and line-granularity pre-emption, baton-passing caller sessions, pristine-process reference models, ddmin minimiser, replay files'}],
  'checks': checks,
  'not_applicable': na,
- 'notes': 'Checks run /repo\'s working tree (VERIF_REPO overrides). Exit 0 clean, 1 + VIOLATION line on a violation, 2 on a harness error. VERIF_SEED selects the seed; VERIF_RUNS / VERIF_BUDGET_S override the tier bounds.',
+ 'notes': 'Checks run /repo\'s working tree (VERIF_REPO overrides). Exit 0 clean, 1 + VIOLATION line on a violation, 2 on a harness error. VERIF_SEED selects the seed; VERIF_RUNS / VERIF_BUDGET_S override the tier bounds (a batch stops at whichever comes first). Every execution runs in a fresh fork of a process that never executed bycycle code; every reference result is computed in a fork of a zygote created before the first call into bycycle. Self-tests of the machinery: ./check selftest determinism | pool | mutants breaking | mutants preserving (see DESIGN.md 2.7). Seeded changes from independent sub-agents with their confirmation records: /verif/seeded/. Findings on the unchanged tree (all repaired by fix: commits in /repo) with their replay files: /verif/known_findings.json, /verif/findings/.',
 }
 json.dump(m, open('/verif/MANIFEST.json','w'), indent=1)
